@@ -171,7 +171,7 @@ contract("gherkin.token_matcher.TokenMatcher._match_DocStringSeparator",
                  serves=["C13"]),
              clause("close", lambda self, token, is_open, result: implies(
                  result and not is_open, is_none(self._active_doc_string_separator) and self._indent_to_remove == 0
-                 and is_none(token.matched_text)), serves=["C13", "C15"]),
+                 and is_none(token.matched_text)), serves=["C13", "C15", "C16"]),
              clause("fields", lambda token, separator, result: implies(
                  result, token.matched_type == "DocStringSeparator" and token.matched_keyword == separator
                  and token.matched_indent == token.line.indent and token.location["column"] == token.line.indent + 1),
